@@ -510,6 +510,9 @@ def decide_verus_leg(pid, leg, tier, seed, log):
             return hit(tags)
         return f['obligation'] in mine_ids
     refuted = [f for f in fails if serves(f)]
+    # refuted obligations of this unit that carry the tags of OTHER properties only: this property's proof is modular over the same contracts, so it is no
+    # longer established either (main() looks for a failing input of THIS property before saying anything)
+    other_refuted = [f for f in fails if not serves(f) and (not only or f['fn'] in only)]
     # functions of this property that Verus reports as failed
     confirm = {}
     if refuted:
@@ -539,7 +542,7 @@ def decide_verus_leg(pid, leg, tier, seed, log):
         fs = res['functions'].get(o['fn'])
         if fs:
             fn_stats[o['fn']] = {'ms': fs['ms'], 'rlimit': fs['rlimit']}
-    return {'unit': u, 'res': res, 'mine': mine, 'pre': pre, 'refuted': refuted, 'fn_stats': fn_stats, 'lost_hints': lost_hints,
+    return {'unit': u, 'res': res, 'mine': mine, 'pre': pre, 'refuted': refuted, 'fn_stats': fn_stats, 'lost_hints': lost_hints, 'other_refuted': other_refuted,
             'assumptions': scan_assumptions(u.gen_lines, u.meta)}
 
 
@@ -747,6 +750,22 @@ def main():
                 print('     %s %s | %s' % (w['label'] or '', w['origin'], w['text'][:140]))
         print('VIOLATION property=%s replay=%s%s' % (pid, path, '' if wit else ' no-failing-input-found'))
         rc = 1
+    all_known = {o for k in known.get('findings', []) for o in k['obligations']}
+    others = [f for i in legs for f in i.get('other_refuted', []) if f['full'] not in all_known]
+    if others and rc == 0:
+        # obligations tagged for OTHER properties are refuted in a unit this property's proof is built on: the proof of this property is not established on this
+        # tree.  Whether the property itself is violated is decided by a failing input for ITS executable twin on the real code; without one the run is undecided.
+        path = write_replay(pid, others, legs, extra={'note': 'obligations of the units this property is proved in are refuted on this tree; they carry the tags of other properties, so a failing input of THIS property was searched on the real code'})
+        wit = witness_search(pid, others, a.tier, seed, path)
+        ids = sorted({f['full'] for f in others})
+        if wit:
+            for f in others[:8]:
+                print('refuted obligation %s :: %s (tagged for other properties)' % (f['full'], f['detail']['message']))
+            print('VIOLATION property=%s replay=%s' % (pid, path))
+            notes.append('violation: refuted obligations tagged for other properties + a failing input of this property found on the real code')
+            write_evidence(pid, a.tier, seed, t0, legs, notes, refuted=refuted + others, new=others, known=kf_report, kf_obl=kf_obl, bounded=bounded, kani=kani_res)
+            return 1
+        undecided.append('the proof of %s is modular over contracts that are refuted on this tree (%s%s); no failing input of %s itself was found on the real code' % (pid, ', '.join(ids[:3]), ' ...' if len(ids) > 3 else '', pid))
     if undecided_units and rc == 0:
         # the obligations of a unit could not be generated on this tree (construct outside the extractor's grammar, contract text that no longer type-checks
         # against the code, ...).  That alone is never an alarm; but the replay runner can still look for a concrete input on which the executable twin of
